@@ -1,5 +1,5 @@
 #!/bin/sh
-# mksandbox.sh DIR — private pair (DIR/repo = git worktree of /repo HEAD, DIR/verif = copy of /verif)
+# mksandbox.sh DIR — private pair (DIR/repo = git worktree of /repo HEAD, DIR/verif = copy of THIS verif tree)
 # for trying a change to pentops/j5 against the checks without touching /repo.
 #   tools/mksandbox.sh /tmp/sbx1
 #   (edit or `git -C /tmp/sbx1/repo apply patch.diff`)
@@ -7,8 +7,9 @@
 #   tools/rmsandbox.sh /tmp/sbx1
 set -e
 D="$1"; [ -n "$D" ] || { echo "usage: $0 DIR"; exit 2; }
+HERE="$(cd "$(dirname "$0")/.." && pwd)"
 mkdir -p "$D"
 git -C /repo worktree add --detach -f "$D/repo" HEAD >/dev/null
-rsync -a --exclude .git --exclude 'run-*' --exclude replays /verif/ "$D/verif/"
+rsync -a --exclude .git --exclude 'run-*' --exclude replays "$HERE/" "$D/verif/"
 sed -i "s#=> /repo#=> $D/repo#" "$D/verif/harness/go.mod"
 echo "sandbox ready: VERIF_REPO=$D/repo $D/verif/check Cxx quick"
